@@ -17,10 +17,92 @@ pub mod thread {
     //! `std::thread` as modelled by shuttle (spawn, JoinHandle, Builder, sleep,
     //! yield_now, current, park, scope, ...)
     // (not a glob: shuttle::thread also exports `Result`, which would shadow the prelude's)
-    pub use shuttle::thread::{
-        current, park, park_timeout, scope, sleep, spawn, yield_now, Builder, JoinHandle, Scope,
-        ScopedJoinHandle, Thread, ThreadId,
-    };
+    pub use shuttle::thread::{current, park, park_timeout, sleep, spawn, yield_now, Builder, JoinHandle, Thread, ThreadId};
+
+    // `scope` is NOT re-exported from shuttle: shuttle 0.9.3 unblocks the scope's main task
+    // unconditionally when the last scoped thread ends, so a main task that is blocked on a
+    // lock / condvar / channel *inside* the scope closure is woken spuriously and shuttle's
+    // condvar model panics ("should not have been woken while in Waiting status"). The
+    // replacement below has std's API and semantics (implicit join of every scoped thread at
+    // the end, "a scoped thread panicked" if an un-joined one did) on top of spawn + join.
+    use std::marker::PhantomData;
+    use std::sync::{Arc as StdArc, Mutex as StdMutex};
+
+    type Slot = StdArc<StdMutex<Option<JoinHandle<()>>>>;
+
+    pub struct Scope<'scope, 'env: 'scope> {
+        slots: StdMutex<Vec<Slot>>,
+        scope: PhantomData<&'scope mut &'scope ()>,
+        env: PhantomData<&'env mut &'env ()>,
+    }
+
+    pub struct ScopedJoinHandle<'scope, T> {
+        slot: Slot,
+        packet: StdArc<StdMutex<Option<T>>>,
+        _scope: PhantomData<&'scope ()>,
+    }
+
+    impl<'scope, 'env> Scope<'scope, 'env> {
+        pub fn spawn<F, T>(&'scope self, f: F) -> ScopedJoinHandle<'scope, T>
+        where
+            F: FnOnce() -> T + Send + 'scope,
+            T: Send + 'scope,
+        {
+            let packet: StdArc<StdMutex<Option<T>>> = StdArc::new(StdMutex::new(None));
+            let p2 = packet.clone();
+            let body: Box<dyn FnOnce() + Send + 'scope> = Box::new(move || {
+                let v = f();
+                *p2.lock().unwrap_or_else(|e| e.into_inner()) = Some(v);
+            });
+            // SAFETY: `scope` joins every spawned thread before it returns, so nothing borrowed
+            // for 'scope is used after it ends (same argument as std's scoped threads)
+            let body: Box<dyn FnOnce() + Send + 'static> = unsafe { std::mem::transmute(body) };
+            let h = spawn(body);
+            let slot: Slot = StdArc::new(StdMutex::new(Some(h)));
+            self.slots.lock().unwrap_or_else(|e| e.into_inner()).push(slot.clone());
+            ScopedJoinHandle { slot, packet, _scope: PhantomData }
+        }
+    }
+
+    impl<T> ScopedJoinHandle<'_, T> {
+        pub fn join(self) -> std::thread::Result<T> {
+            let h = self.slot.lock().unwrap_or_else(|e| e.into_inner()).take();
+            if let Some(h) = h {
+                h.join()?;
+            }
+            match self.packet.lock().unwrap_or_else(|e| e.into_inner()).take() {
+                Some(v) => Ok(v),
+                None => Err(Box::new("scoped thread produced no value")),
+            }
+        }
+        pub fn is_finished(&self) -> bool {
+            self.packet.lock().unwrap_or_else(|e| e.into_inner()).is_some()
+        }
+    }
+
+    pub fn scope<'env, F, T>(f: F) -> T
+    where
+        F: for<'scope> FnOnce(&'scope Scope<'scope, 'env>) -> T,
+    {
+        let sc = Scope { slots: StdMutex::new(Vec::new()), scope: PhantomData, env: PhantomData };
+        let res = std::panic::catch_unwind(std::panic::AssertUnwindSafe(|| f(&sc)));
+        let mut child_panicked = false;
+        loop {
+            let next = sc.slots.lock().unwrap_or_else(|e| e.into_inner()).pop();
+            let Some(slot) = next else { break };
+            let h = slot.lock().unwrap_or_else(|e| e.into_inner()).take();
+            if let Some(h) = h {
+                if h.join().is_err() {
+                    child_panicked = true;
+                }
+            }
+        }
+        match res {
+            Err(e) => std::panic::resume_unwind(e),
+            Ok(_) if child_panicked => panic!("a scoped thread panicked"),
+            Ok(v) => v,
+        }
+    }
 }
 
 pub fn task_id() -> u32 {
